@@ -151,11 +151,11 @@ type Result struct {
 func (r Result) Sig() string { return r.Kind + "@" + r.Site }
 
 type child struct {
-	cmd    *exec.Cmd
-	in     io.WriteCloser
-	out    *bufio.Reader
-	errf   string
-	tick   float64
+	cmd  *exec.Cmd
+	in   io.WriteCloser
+	out  *bufio.Reader
+	errf string
+	tick float64
 }
 
 // Pool runs requests in isolated child processes, one case at a time per
